@@ -46,8 +46,10 @@ Length == IsEv("length") /\ firstReq' = AddReq(firstReq, E.loads) /\ UNCHANGED <
 \* large directories (hundreds to thousands of entries, sizes straddling the
 \* auto-shard threshold): compared entry by entry in Go, summarised in one line
 Big == IsEv("big") /\ UNCHANGED <<D, firstReq, nIter, yielded>>
+\* verdict of the Go race detector over a batch of concurrent scenarios (C17)
+RaceCheck == IsEv("racecheck") /\ UNCHANGED <<D, firstReq, nIter, yielded>>
 Done == l = Len(Trace) + 1 /\ UNCHANGED vars
-Next == Reset \/ Dir \/ OpenNode \/ Lookup \/ Iter \/ Length \/ Big \/ Done
+Next == Reset \/ Dir \/ OpenNode \/ Lookup \/ Iter \/ Length \/ Big \/ RaceCheck \/ Done
 TraceSpec == Init /\ [][Next]_vars
 
 (***************************************************************************)
@@ -156,6 +158,9 @@ Cond_C15_Lookup == (Has /\ Ev.ev = "lookup" /\ NoFault /\ Miss = {} /\ Ev.name #
     THEN Ev.res = "found" /\ Ev.link = FirstUnder(Ev.name)
     ELSE Ev.res = NotFoundRes(Ev.how)
 
+\* ---- C17: no data race reported on the scenarios run under the race detector ----
+Cond_C17_NoRace == (Has /\ Ev.ev = "racecheck") => (Ev.races = 0 /\ Ev.completed)
+
 \* ---- C20: first requests follow the depth-first link-order walk ----
 Cond_C20_Order == (Has /\ IsHamt /\ D.mode = "seq") => IsPrefixSeq(firstReq, PreShards)
 Cond_C20_Complete == (Has /\ IsHamt /\ D.mode = "seq" /\ Ev.ev \in {"iter", "length"} /\ NoFault) => firstReq = PreShards
@@ -182,6 +187,7 @@ Inv_C12_IterTerminates == Chk("Inv_C12_IterTerminates", Cond_C12_IterTerminates)
 Inv_C15_Iter == Chk("Inv_C15_Iter", Cond_C15_Iter)
 Inv_C15_Length == Chk("Inv_C15_Length", Cond_C15_Length)
 Inv_C15_Lookup == Chk("Inv_C15_Lookup", Cond_C15_Lookup)
+Inv_C17_NoRace == Chk("Inv_C17_NoRace", Cond_C17_NoRace)
 Inv_C20_Order == Chk("Inv_C20_Order", Cond_C20_Order)
 Inv_C20_Complete == Chk("Inv_C20_Complete", Cond_C20_Complete)
 Alias == [l |-> l]
